@@ -81,6 +81,9 @@ type env struct {
 	channel       *muc.Channel
 	outConn       *ibb.Conn
 	wedged        bool
+	lst2          *ibb.Listener // a second listener nobody accepts from
+	p2            *sess.Pair
+	lst2Closing   bool
 	ibbAck        string          // how the peer treats the application's IBB <close/> / <data/> requests (under mu)
 	histClose     int             // close the tracked-history iterator after this many results (<0: never)
 	histSent      int             // tracked-history results the peer has sent (under mu)
@@ -658,6 +661,11 @@ func (e *env) finish(closeTag bool) {
 		e.peerWrite("</stream:stream>")
 	}
 	e.p.Peer.CloseWrite()
+	// the application never leaves Serve waiting for it: a listener that nobody
+	// accepts from is closed at the latest now
+	if e.lst2 != nil && !e.lst2Closing {
+		e.runAct("ibb.listener2.close")
+	}
 	r := e.wait(e.served, "Serve to return after the input ended", false)
 	e.cancel()
 	if r == waitOK {
@@ -705,6 +713,10 @@ func (e *env) finish(closeTag bool) {
 	}
 	// The peer loop must see everything the library wrote before the oracle
 	// looks at it: end the library's output, let the loop drain, then close.
+	if e.p2 != nil {
+		e.p2.Lib.Close()
+		e.p2.Peer.Close()
+	}
 	e.p.Lib.Close()
 	select {
 	case <-e.loop.Done():
